@@ -203,7 +203,7 @@ def guards(I):
         re_ = make_re(I, env, _run_bundlers={okey: other, bkey: b}, _deferred_pause_requested=False)
         r = call_async(I, I.getattr(re_, "_checkpoint"), MsgVal("checkpoint", None, (), {}, mkey))
         w.check(f"{RE}._checkpoint#raises[IllegalMessageSequence while some run is bundling]",
-                r[0] == "raise" and exc_is(I, r[1], IMS) and not env.emitted, rp)
+                r[0] == "raise" and exc_is(I, r[1], IMS) and not env.emitted, {"replay": "bundler.checkpoint_guard", "bundling_key": bkey, "message_key": mkey})
     else:
         configured = []
         d1.spec["methods"] = {"configure": lambda I_, o, a, k: configured.append(a) or ({}, {})}
